@@ -205,4 +205,21 @@ def emit():
     nxt = expr(ast.BinOp(ast.Name('length'), ast.Sub(), decs[0].value), {**base, 'n': 'n'})
     L.append(f'Definition ri_next (length n : N) : N := {nxt}.')
     L.append(f'Definition ri_break_on_empty : bool := {coq_bool(brk)}.')
+    # ---------------- sh._image_re: which command-line words name something inside an image ----------
+    sh = parse('sh.py')
+    rx = None
+    for n in sh.body:
+        if isinstance(n, ast.Assign) and ast.unparse(n.targets[0]) == '_image_re':
+            rx = n.value
+    if not (isinstance(rx, ast.Call) and ast.unparse(rx.func) == 're.compile' and len(rx.args) == 1 and not rx.keywords
+            and isinstance(rx.args[0], ast.Constant) and isinstance(rx.args[0].value, str)):
+        raise TranslateError('sh._image_re is not re.compile(<one string literal>) without flags')
+    text = rx.args[0].value
+    L.append(f'Definition sh_image_re_text : list N := {coq_bytes(text)}.')
+    standard = (text == '^(?P<image>.*?):(?P<part>[1-9][0-9]{,2})?(?P<path>/.*)$')
+    L.append(f'Definition sh_image_re_standard : bool := {coq_bool(standard)}.')
+    gp = ast.unparse(find_func(sh.body, 'get_paths'))
+    uses = ("(match := _image_re.match(path)) is None" in gp and "int(match['part'] or -1)" in gp
+            and "match['image']" in gp and "match['path']" in gp)
+    L.append(f'Definition sh_get_paths_uses_image_re : bool := {coq_bool(uses)}.')
     return '\n'.join(L) + '\n'
